@@ -294,6 +294,122 @@ pub fn dump_consts<'tcx>(tcx: TyCtxt<'tcx>) -> J {
             out.push(J::obj(rec));
         }
     }
+    // (3) constants that generic trait impls derive for the closed field types of this crate
+    //     (e.g. <Fp<MontBackend<C, N>, N> as PrimeField>::TWO_ADICITY): evaluated per concrete type.
+    derived_field_consts(tcx, env, &mut out);
     let _ = n_err;
     J::A(out)
+}
+
+const FIELD_TRAITS: &[&str] = &[
+    "ark_ff::fields::prime::PrimeField",
+    "ark_ff::fields::fft_friendly::FftField",
+    "ark_ff::fields::Field",
+    "ark_ff::fields::AdditiveGroup",
+];
+const FIELD_ADTS: &[&str] = &[
+    "ark_ff::fields::models::fp::Fp",
+    "ark_ff::fields::models::quadratic_extension::QuadExtField",
+    "ark_ff::fields::models::cubic_extension::CubicExtField",
+];
+
+fn collect_field_types<'tcx>(tcx: TyCtxt<'tcx>, ty: Ty<'tcx>, out: &mut Vec<Ty<'tcx>>, depth: usize) {
+    if depth > 8 {
+        return;
+    }
+    match ty.kind() {
+        ty::Adt(def, args) => {
+            let p = path_str(tcx, def.did());
+            if FIELD_ADTS.contains(&p.as_str()) && !ty.has_non_region_param() && !out.contains(&ty) {
+                out.push(ty);
+            }
+            for a in args.iter() {
+                if let Some(t) = a.as_type() {
+                    collect_field_types(tcx, t, out, depth + 1);
+                }
+            }
+        }
+        ty::Ref(_, t, _) | ty::Slice(t) | ty::Array(t, _) | ty::RawPtr(t, _) => collect_field_types(tcx, *t, out, depth + 1),
+        ty::Tuple(ts) => {
+            for t in ts.iter() {
+                collect_field_types(tcx, t, out, depth + 1);
+            }
+        }
+        _ => {}
+    }
+}
+
+fn derived_field_consts<'tcx>(tcx: TyCtxt<'tcx>, env: ty::TypingEnv<'tcx>, out: &mut Vec<J>) {
+    // closed field types mentioned by the types of this crate's own closed constants
+    let mut tys: Vec<Ty<'tcx>> = Vec::new();
+    for ldid in tcx.hir_body_owners() {
+        let did = ldid.to_def_id();
+        if !matches!(tcx.def_kind(did), DefKind::Const { .. } | DefKind::AssocConst { .. }) {
+            continue;
+        }
+        if tcx.generics_of(did).count() != 0 || tcx.trait_of_assoc(did).is_some() {
+            continue;
+        }
+        let ty = tcx.type_of(did).instantiate_identity().skip_norm_wip();
+        if let Ok(ty) = tcx.try_normalize_erasing_regions(env, ty::Unnormalized::new_wip(ty)) {
+            collect_field_types(tcx, ty, &mut tys, 0);
+        }
+    }
+    if tys.is_empty() {
+        return;
+    }
+    let traits: Vec<_> = tcx
+        .all_traits_including_private()
+        .filter(|d| FIELD_TRAITS.contains(&path_str(tcx, *d).as_str()))
+        .collect();
+    for ty in tys {
+        // only types whose configuration lives in this crate (avoid repeating a dependency's fields)
+        let s = ty_str(ty);
+        let local = crate::CRATE.with(|c| c.borrow().clone());
+        if !s.contains(&format!("{}::", local)) {
+            continue;
+        }
+        for &tr in &traits {
+            for &tit in tcx.associated_item_def_ids(tr) {
+                if !matches!(tcx.def_kind(tit), DefKind::AssocConst { .. }) {
+                    continue;
+                }
+                let name = tcx.associated_item(tit).opt_name().map(|s| s.to_string()).unwrap_or_default();
+                let args = tcx.mk_args_trait(ty, []);
+                if tcx.generics_of(tit).count() != 1 {
+                    continue;
+                }
+                let uv = UnevaluatedConst { def: tit, args, promoted: None };
+                let r = std::panic::catch_unwind(std::panic::AssertUnwindSafe(|| {
+                    match ty::Instance::try_resolve(tcx, env, tit, args) {
+                        Ok(Some(_)) => {}
+                        _ => return None,
+                    }
+                    let cty = tcx.type_of(tit).instantiate(tcx, args).skip_norm_wip();
+                    let cty = tcx.try_normalize_erasing_regions(env, ty::Unnormalized::new_wip(cty)).ok()?;
+                    match tcx.const_eval_resolve(env, uv, DUMMY_SP) {
+                        Ok(v) => {
+                            let mut d = D { tcx, env, budget: 200_000 };
+                            Some((d.decode(v, cty, 0), ty_str(cty)))
+                        }
+                        Err(_) => None,
+                    }
+                }));
+                if let Ok(Some((v, cty))) = r {
+                    out.push(J::obj(vec![
+                        ("id", J::S(path_str(tcx, tit))),
+                        ("name", J::S(name)),
+                        ("ty", J::S(cty)),
+                        ("file", J::S(String::new())),
+                        ("line", J::I(0)),
+                        ("inherited", J::B(true)),
+                        ("derived_for_type", J::B(true)),
+                        ("owner", J::S(s.clone())),
+                        ("trait", J::S(path_str(tcx, tr))),
+                        ("val", v),
+                    ]));
+                }
+            }
+        }
+    }
 }
